@@ -28,7 +28,7 @@ import traceback
 
 from . import VERIF, REPO, tlc, tlaval
 
-KNOWN_FILE = os.path.join(VERIF, "known_findings.json")
+FINDINGS_DIR = os.path.join(VERIF, "findings")      # one committed file per property; merged index: known_findings.json
 
 
 class Machinery(Exception):
@@ -105,8 +105,9 @@ class Ctx:
         self.known_hits = {}      # finding id -> count
         self._distinct = set()
         self._known = []
-        if os.path.exists(KNOWN_FILE):
-            for e in json.load(open(KNOWN_FILE)).get("findings", []):
+        kf = os.path.join(FINDINGS_DIR, pid + ".json")
+        if os.path.exists(kf):
+            for e in json.load(open(kf)).get("findings", []):
                 if e.get("property") == pid and e.get("status") == "open":
                     self._known.append(e)
 
